@@ -55,6 +55,18 @@ def tree_profile(nkeys, viol_kinds, quick_verify, quick_gen, thorough_verify, th
     return p
 
 
+BLOB_INV = ["GcExactM", "NoDanglingM", "IdsFresh", "ReadsRefine", "StructureSound"]
+
+
+def blob_model(timeout=900, workers=8, **kw):
+    """Constants of the design-level key-value separation model (spec/LsmBlobModel.tla)."""
+    d = {k: v for k, v in BASE.items() if k not in ("SampleK", "MinLen", "WriteBias")}
+    d.update({"Vals": {2}, "BigVals": {2}, "BlobPerFile": True, "StaleNum": 1, "StaleDen": 2,
+              "ReopenAboveGc": True, "DestLevels": {1, 6}})
+    d.update(kw)
+    return {"constants": d, "invariants": BLOB_INV, "timeout": timeout, "workers": workers}
+
+
 def sim(num, depth, **kw):
     return {"mode": "sim", "num": num, "depth": depth, "constants": c(**kw)}
 
